@@ -6,6 +6,8 @@ CONSTANT Reps <- Two
 CONSTANT Depths = {1}
 CONSTANT Configs <- CfgFeed
 CONSTANT Feed = TRUE
+CONSTANT GoodChains <- MCGood
+CONSTANT BadChains <- MCBad
 CONSTANT Lean = TRUE
 SPECIFICATION Spec
 CHECK_DEADLOCK FALSE
